@@ -163,7 +163,7 @@ def magnitude(case, ref):
 
 
 # ---------------------------------------------------------------- layouts, dtypes, extra coordinates (same arithmetic)
-LAYOUTS = ["2d", "fortran", "strided", "series", "series_rev"]
+LAYOUTS = ["2d", "fortran", "strided", "series", "series_rev", "table_ne", "table_rev"]
 
 
 @st.composite
@@ -228,7 +228,10 @@ def check_layout(case, ctx):
         return dt
     dc, dd, dq = fits(dc, e, n), fits(dd, *case["data"]), fits(dq, qe, qn)
     fit_kind = t["fit"]
-    e2, n2 = present(e, fit_kind, t["fit_shape"], dc), present(n, fit_kind, t["fit_shape"], dc)
+    table = fit_kind[6:] if fit_kind.startswith("table_") else None  # easting and northing as views of one 2-D table (columns swapped / rows reversed)
+    if table:
+        fit_kind = "same"
+    e2, n2 = build.table_views(present(e, fit_kind, t["fit_shape"], dc), present(n, fit_kind, t["fit_shape"], dc), table)
     data2 = [present(d, fit_kind, t["fit_shape"], dd) for d in case["data"]]
     if t.get("mixed_components") and len(case["data"]) > 1:
         frac = [v + 0.37 for v in case["data"][1]]
@@ -242,8 +245,8 @@ def check_layout(case, ctx):
     qshape = np.shape(qe2)
     compare(ctx, "%s with fit layout %s/%s/%s, query layout %s/%s, %d extra coordinate(s)" % (case["gridder"], fit_kind, dc, dd, t["query"], dq, t["extra"]),
             ref, got, 1e-12 * magnitude(case, ref), qshape)
-    changed = fit_kind != "same" or t["query"] != "same" or t["extra"] or t["qextra"] or (dc, dd, dq) != ("float64",) * 3
-    ctx.label(case["gridder"], "fit_" + fit_kind, "query_" + t["query"], "extra%d" % t["extra"], *(["near_grid_query"] if t.get("near_grid") else []))
+    changed = fit_kind != "same" or table is not None or t["query"] != "same" or t["extra"] or t["qextra"] or (dc, dd, dq) != ("float64",) * 3
+    ctx.label(case["gridder"], "fit_" + (fit_kind if not table else "table_" + table), "query_" + t["query"], "extra%d" % t["extra"], *(["near_grid_query"] if t.get("near_grid") else []))
     if (dc, dd, dq) != ("float64",) * 3:
         ctx.label(*["narrow_or_unsigned_" + w for w, d_ in (("coords", dc), ("data", dd), ("query", dq)) if d_ not in ("float64", "int64", "int32")])
         ctx.label("int_coords" if dc != "float64" else "float_coords", "int_data" if dd != "float64" else "float_data", "int_query" if dq != "float64" else "float_query")
